@@ -13,6 +13,9 @@ esac
 OUT=/verif/.build/fuzz-$ID.json
 rm -f "$OUT"
 export CARGO_NET_OFFLINE=true
+# monorail's change analysis runs on rayon's global pool (one thread per core): with one
+# libFuzzer process that only adds wake-up latency per execution (3 exec/s on a busy machine)
+export RAYON_NUM_THREADS=2
 export RUSTFLAGS="--cfg tokio_unstable --cfg pnordahl_monorail_verif"
 cd /verif/fuzz || exit 2
 LOG=/verif/.build/fuzz-$ID.log
